@@ -80,8 +80,8 @@ func (g *Gen) instrMods(fc *FnCtx, fn *ssa.Function, in ssa.Instruction, ms *Mod
 			fc.regArr("G!maplen", "(Array Int Int)")
 		}
 	case *ssa.Select:
-		ms.Names["G!chan.closed"] = true
-		fc.regArr("G!chan.closed", "(Array Int Bool)")
+		ms.Names["G!chanClosed"] = true
+		fc.regArr("G!chanClosed", "(Array Int Bool)")
 	case *ssa.RunDefers:
 		// deferred calls: accounted at the Defer instruction
 	case ssa.CallInstruction:
@@ -146,11 +146,43 @@ func (g *Gen) callMods(fc *FnCtx, caller *ssa.Function, c *ssa.CallCommon) *ModS
 	return ms
 }
 
-func (g *Gen) specMods(fc *FnCtx, sp *FuncSpec, ms *ModSet) {
+type pointMod struct {
+	names []string
+	key   *SExpr
+	text  string
+}
+
+// pointMods: modifies entries of the form NAME[expr] (the array changes at that key only).
+func (g *Gen) pointMods(fc *FnCtx, sp *FuncSpec) []pointMod {
+	var out []pointMod
+	for _, e := range sp.Modifies {
+		i := strings.Index(e, "[")
+		if i < 0 || !strings.HasSuffix(e, "]") {
+			continue
+		}
+		k, err := parseSExpr(e[i+1 : len(e)-1])
+		if err != nil {
+			fc.errs = append(fc.errs, "modifies "+e+": "+err.Error())
+			continue
+		}
+		out = append(out, pointMod{names: g.modEntryNames(fc, sp, strings.TrimSpace(e[:i])), key: k, text: e})
+	}
+	return out
+}
+
+func (g *Gen) specMods(fc *FnCtx, sp *FuncSpec, ms *ModSet) { g.specModsP(fc, sp, ms, true) }
+
+func (g *Gen) specModsP(fc *FnCtx, sp *FuncSpec, ms *ModSet, includePoint bool) {
 	for _, e := range sp.Modifies {
 		if e == "*" {
 			ms.All = true
 			continue
+		}
+		if i := strings.Index(e, "["); i >= 0 && strings.HasSuffix(e, "]") {
+			if !includePoint {
+				continue
+			}
+			e = strings.TrimSpace(e[:i])
 		}
 		names := g.modEntryNames(fc, sp, e)
 		for _, n := range names {
@@ -489,6 +521,13 @@ func (fr *Frame) inline(in ssa.Instruction, fn *ssa.Function, mc *ssa.MakeClosur
 			sub.vals[p] = args[i]
 		}
 	}
+	if ci, ok := in.(ssa.CallInstruction); ok && !ci.Common().IsInvoke() {
+		for i, a := range ci.Common().Args {
+			if ad, ok := fr.addrs[a]; ok && i < len(fn.Params) {
+				sub.addrs[fn.Params[i]] = ad
+			}
+		}
+	}
 	if mc != nil {
 		owner := fc.cloFrames[mc]
 		if owner == nil {
@@ -563,7 +602,9 @@ func (fr *Frame) havocCall(in ssa.Instruction, name string, args []Val, resT typ
 		fc.regArr("$top", "Int")
 		fc.note("call of " + name + " without contract: result and heap unconstrained; ghost resources framed (callee assumed not to touch pools, locks or files of this activation)")
 	}
-	// locals whose address is passed are clobbered
+	if ci, ok := in.(ssa.CallInstruction); ok {
+		nst = fr.clobberAddrArgs(ci.Common(), nst)
+	}
 	fc.assume(sImp(guard, fc.typingFacts(nst, res)), "typing of call result")
 	setRes(res)
 	fr.recordPropagation(in, name, res, guard)
@@ -622,6 +663,23 @@ func (fr *Frame) applyContract(sp *FuncSpec, fn *ssa.Function, name string, pnam
 	for i, n := range pnames {
 		if i < len(args) && n != "" && n != "_" {
 			env.names[n] = args[i]
+		}
+	}
+	if ci, ok := in.(ssa.CallInstruction); ok {
+		cargs := ci.Common().Args
+		shift := len(args) - len(cargs) // invoke: receiver is args[0]
+		env.derefs = map[string]func(*State) Val{}
+		for i, a := range cargs {
+			if i+shift >= len(pnames) {
+				break
+			}
+			pt := pointee(a.Type())
+			if pt == nil || kindOf(pt) == KStruct {
+				continue
+			}
+			ad := fr.addrOf(a, st)
+			pt2 := pt
+			env.derefs[pnames[i+shift]] = func(s *State) Val { return fc.load(s, ad, pt2) }
 		}
 	}
 	// closure free variables by name
@@ -709,7 +767,7 @@ func (fr *Frame) applyContract(sp *FuncSpec, fn *ssa.Function, name string, pnam
 	// frame
 	ms := newModSet()
 	if sp.HasMod {
-		fc.g.specMods(fc, sp, ms)
+		fc.g.specModsP(fc, sp, ms, false)
 	} else if fn != nil && fn.Blocks != nil && !sp.Trusted {
 		ms = fc.g.fnMods(fc, fn)
 	} else if !sp.Trusted {
@@ -729,12 +787,34 @@ func (fr *Frame) applyContract(sp *FuncSpec, fn *ssa.Function, name string, pnam
 		}
 		nst = st.havocSet(set)
 	}
+	if sp.HasMod {
+		for _, pm := range fc.g.pointMods(fc, sp) {
+			kv := env.tr(pm.key)
+			k := kv.S
+			if kindOf(kv.T) == KIface {
+				k = kv.Sub[1].S
+			}
+			for _, n := range pm.names {
+				srt := fc.sorts[n]
+				// element sort = last component of (Array K V)
+				vs := strings.TrimSuffix(srt[strings.Index(srt[7:], " ")+8:], ")")
+				fv := fc.freshName(n + "@pt")
+				fc.declareConst(fv, vs)
+				nst = nst.store(n, sx("store", st.get(n), k, sym(fv)))
+			}
+		}
+	}
 	fc.assume(sImp(guard, fc.typingFacts(nst, res)), "typing of call result")
+	// addresses of fields or locals passed to the callee: those locations may have been written
+	if ci, ok := in.(ssa.CallInstruction); ok && !sp.Pure {
+		nst = fr.clobberAddrArgs(ci.Common(), nst)
+	}
 	// ensures
 	eenv := &Env{fc: fc, names: map[string]Val{}, state: nst, old: st, pkg: env.pkg, errs: &fc.errs}
 	for k, v := range env.names {
 		eenv.names[k] = v
 	}
+	eenv.derefs = env.derefs
 	rnames := sp.Results
 	if rnames == nil {
 		for i := 0; i < sig.Results().Len(); i++ {
@@ -973,8 +1053,8 @@ func (fr *Frame) builtin(in ssa.Instruction, bi *ssa.Builtin, c *ssa.CallCommon,
 			return st
 		}
 	case "close":
-		fc.regArr("G!chan.closed", "(Array Int Bool)")
-		return st.store("G!chan.closed", sx("store", st.get("G!chan.closed"), args[0].S, "true"))
+		fc.regArr("G!chanClosed", "(Array Int Bool)")
+		return st.store("G!chanClosed", sx("store", st.get("G!chanClosed"), args[0].S, "true"))
 	case "print", "println", "recover":
 		if in.(ssa.Value) != nil {
 			setRes(fc.freshVal(in.(ssa.Value).Type(), "bi"))
@@ -1000,4 +1080,22 @@ func (fc *FnCtx) modeOK(c *Clause) bool {
 		return c.Mode == "bv"
 	}
 	return c.Mode == "int"
+}
+
+// clobberAddrArgs: a pointer to a field, element or local passed to a callee may be written through.
+func (fr *Frame) clobberAddrArgs(c *ssa.CallCommon, st *State) *State {
+	fc := fr.fc
+	for _, a := range c.Args {
+		ad, ok := fr.addrs[a]
+		if !ok {
+			continue
+		}
+		pt := pointee(a.Type())
+		if pt == nil || kindOf(pt) == KStruct || kindOf(pt) == KArray {
+			continue
+		}
+		v := fc.freshVal(pt, "clob")
+		st = fc.storeVal(st, ad, pt, v)
+	}
+	return st
 }
